@@ -17,6 +17,8 @@ Skeleton == {
   L(<<"d", "lb.slice">>, <<"..", "b.slice">>), L(<<"d", "sub", "up">>, <<"..", "..", "e">>),
   D(<<"e">>),
   \* the extension is ".slice" as written: other letter cases are other extensions (skipped below a directory, an error as a source)
+  \* directories whose name starts with a dot are directories like any other
+  D(<<"d", ".hid">>), F(<<"d", ".hid", "h.slice">>, "slice"), D(<<".top">>), F(<<".top", "t.slice">>, "slice"), F(<<"g", ".dotfile.slice">>, "slice"),
   \* a comma is a character like any other in a path
   D(<<"r,s">>), F(<<"r,s", "q.slice">>, "slice"), F(<<"k,l.slice">>, "slice"),
   F(<<"UP.SLICE">>, "slice"), F(<<"d", "Mixed.Slice">>, "slice"), F(<<"d", "sub", "v.SLICE">>, "slice"), F(<<"g", "w.sLICE">>, "slice"),
@@ -26,18 +28,18 @@ Skeleton == {
   L(<<"la.slice">>, <<"a.slice">>), L(<<"ld">>, <<"d">>), L(<<"dangling.slice">>, <<"nothing.slice">>), L(<<"lnk">>, <<"a.slice">>)
 }
 Names == {"a.slice", "b.slice", "bad.slice", "x.slice", "y.slice", "z.slice", "lb.slice", "w.slice", "bad2.slice", "la.slice",
-          "dangling.slice", "missing.slice", "nothing.slice", "pkg.slice", "in.slice", "deep.slice", "v.slice", "q.slice", "k,l.slice"}
+          "dangling.slice", "missing.slice", "nothing.slice", "pkg.slice", "in.slice", "deep.slice", "v.slice", "q.slice", "k,l.slice", "h.slice", "t.slice", ".dotfile.slice"}
 
 AllSpellings == {
   <<"a.slice">>, <<".", "a.slice">>, <<"d", "..", "a.slice">>, <<"ROOT", "a.slice">>, <<"la.slice">>, <<"b.slice">>, <<"d", "lb.slice">>,
   <<"c.txt">>, <<"noext">>, <<"lnk">>, <<"d">>, <<"ld">>, <<"d", "sub">>, <<"e">>, <<"dangling.slice">>, <<"missing.slice">>, <<"bad.slice">>,
   <<"d", "x.slice">>, <<"ld", "x.slice">>, <<"g">>, <<"d", "sub", "..", "y.slice">>, <<"ROOT", "d">>, <<"d", "sub", "up">>,
-  <<"pkg.slice">>, <<"pkg.slice", "in.slice">>, <<"UP.SLICE">>, <<"d", "Mixed.Slice">>, <<"r,s">>, <<"k,l.slice">>
+  <<"pkg.slice">>, <<"pkg.slice", "in.slice">>, <<"UP.SLICE">>, <<"d", "Mixed.Slice">>, <<"r,s">>, <<"k,l.slice">>, <<".top">>, <<"d", ".hid">>
 }
 \* a covering subset for the quick tier: every kind of argument, several spellings of one file
 SomeSpellings == {
   <<"a.slice">>, <<"d", "..", "a.slice">>, <<"la.slice">>, <<"b.slice">>, <<"c.txt">>, <<"lnk">>, <<"d">>, <<"ld">>, <<"d", "sub">>, <<"e">>,
-  <<"dangling.slice">>, <<"missing.slice">>, <<"bad.slice">>, <<"ld", "x.slice">>, <<"g">>, <<"ROOT", "a.slice">>, <<"pkg.slice">>, <<"UP.SLICE">>, <<"r,s">>
+  <<"dangling.slice">>, <<"missing.slice">>, <<"bad.slice">>, <<"ld", "x.slice">>, <<"g">>, <<"ROOT", "a.slice">>, <<"pkg.slice">>, <<"UP.SLICE">>, <<"r,s">>, <<".top">>
 }
 \* few spellings, longer lists: a file named twice with another argument in between, in either list
 DupSpellings == { <<"a.slice">>, <<"d", "..", "a.slice">>, <<"b.slice">>, <<"d">> }
